@@ -413,6 +413,183 @@ macro_rules! c19_one2 {
     }};
 }
 
+/// crossed storage kinds, 1-D: data/axis stored as `$sd`, the query as `$sq`
+#[macro_export]
+macro_rules! c19_cross1 {
+    ($ev:expr, $id:expr, $T:ty, $D:ty, $rank:expr, $sd:tt, $sq:tt) => {{
+        use $crate::c19::{Bits, Inst};
+        use $crate::ndarray::{Array1, ArrayD, IxDyn};
+        use $crate::ndarray_interp::interp1d::Interp1DBuilder;
+        use $crate::outcome::guard;
+        let shape = $crate::c19::data_shape($rank, false);
+        let n: usize = shape.iter().product();
+        let data_d = ArrayD::from_shape_vec(
+            IxDyn(&shape),
+            (0..n).map(|i| <$T as Bits>::from_i(((i * 3) % 7) as i64 + (i % 2) as i64)).collect(),
+        )
+        .unwrap();
+        let data = data_d.into_dimensionality::<$D>().unwrap();
+        let x: Array1<$T> = Array1::from(vec![<$T as Bits>::from_i(0), <$T as Bits>::from_i(1), <$T as Bits>::from_i(2)]);
+        let q1: Array1<$T> = Array1::from(vec![<$T as Bits>::query(1), <$T as Bits>::query(0), <$T as Bits>::query(1)]);
+        let mut inst = Inst {
+            ev: $ev,
+            name: format!(
+                "Interp1D<{}, {}, data {}, query {}, Linear>",
+                <$T as Bits>::NAME,
+                stringify!($D),
+                stringify!($sd),
+                stringify!($sq)
+            ),
+            id: $id,
+        };
+        inst.begin();
+        let r = guard(|| {
+            let b = $crate::c19_sto!($sd, Interp1DBuilder::new, data);
+            b.x($crate::c19_sto!($sd, std::convert::identity, x)).build().unwrap()
+        });
+        match r {
+            Err(p) => inst.failed("build", &p),
+            Ok(interp) => {
+                let fast = guard(|| interp.interp_array(&$crate::c19_sto!($sq, std::convert::identity, q1)).unwrap());
+                inst.casts("interp_array(Ix1)", 2);
+                let general = guard(|| {
+                    let q = q1.clone().into_shape_with_order((3, 1)).unwrap();
+                    interp.interp_array(&$crate::c19_sto!($sq, std::convert::identity, q)).unwrap()
+                });
+                inst.casts("interp_array(Ix2)", 0);
+                let singles = guard(|| {
+                    let mut v: Vec<$T> = Vec::new();
+                    for &q in q1.iter() {
+                        v.extend(interp.interp(q).unwrap().iter().copied());
+                    }
+                    v
+                });
+                match (fast, general, singles) {
+                    (Ok(f), Ok(g), Ok(s)) => {
+                        let fb: Vec<u64> = f.iter().map(|v| v.b()).collect();
+                        let gb: Vec<u64> = g.iter().map(|v| v.b()).collect();
+                        let sb: Vec<u64> = s.iter().map(|v| v.b()).collect();
+                        inst.compare("Ix1 vs Ix2 (n,1)", &fb, &gb);
+                        inst.compare("Ix1 vs per-element interp", &fb, &sb);
+                    }
+                    (a, b, c) => {
+                        for (name, r) in [("interp_array(Ix1)", a.err()), ("interp_array(Ix2)", b.err()), ("interp", c.err())] {
+                            if let Some(p) = r {
+                                inst.failed(name, &p);
+                            }
+                        }
+                    }
+                }
+            }
+        }
+    }};
+}
+
+/// crossed storage kinds, 2-D: the x query stored as `$sx`, the y query as `$sy`
+#[macro_export]
+macro_rules! c19_cross2 {
+    ($ev:expr, $id:expr, $T:ty, $D:ty, $rank:expr, $sx:tt, $sy:tt) => {{
+        use $crate::c19::{Bits, Inst};
+        use $crate::ndarray::{Array1, ArrayD, IxDyn};
+        use $crate::ndarray_interp::interp2d::Interp2DBuilder;
+        use $crate::outcome::guard;
+        let shape = $crate::c19::data_shape($rank, true);
+        let n: usize = shape.iter().product();
+        let data_d = ArrayD::from_shape_vec(
+            IxDyn(&shape),
+            (0..n).map(|i| <$T as Bits>::from_i(((i * 5) % 7) as i64 * 2 + (i % 3) as i64)).collect(),
+        )
+        .unwrap();
+        let data = data_d.into_dimensionality::<$D>().unwrap();
+        let qx: Array1<$T> = Array1::from(vec![<$T as Bits>::query(0), <$T as Bits>::query(1), <$T as Bits>::query(0)]);
+        let qy: Array1<$T> = Array1::from(vec![<$T as Bits>::query(1), <$T as Bits>::query(1), <$T as Bits>::query(0)]);
+        let mut inst = Inst {
+            ev: $ev,
+            name: format!(
+                "Interp2D<{}, {}, xs {}, ys {}, Bilinear>",
+                <$T as Bits>::NAME,
+                stringify!($D),
+                stringify!($sx),
+                stringify!($sy)
+            ),
+            id: $id,
+        };
+        inst.begin();
+        match guard(|| Interp2DBuilder::new(data.clone()).build().unwrap()) {
+            Err(p) => inst.failed("build", &p),
+            Ok(interp) => {
+                let fast = guard(|| {
+                    interp
+                        .interp_array(
+                            &$crate::c19_sto!($sx, std::convert::identity, qx),
+                            &$crate::c19_sto!($sy, std::convert::identity, qy),
+                        )
+                        .unwrap()
+                });
+                inst.casts("interp_array(Ix1)", 3);
+                let general = guard(|| {
+                    let a = qx.clone().into_shape_with_order((3, 1)).unwrap();
+                    let b = qy.clone().into_shape_with_order((3, 1)).unwrap();
+                    interp
+                        .interp_array(
+                            &$crate::c19_sto!($sx, std::convert::identity, a),
+                            &$crate::c19_sto!($sy, std::convert::identity, b),
+                        )
+                        .unwrap()
+                });
+                inst.casts("interp_array(Ix2)", 0);
+                let singles = guard(|| {
+                    let mut v: Vec<$T> = Vec::new();
+                    for k in 0..3 {
+                        v.extend(interp.interp(qx[k], qy[k]).unwrap().iter().copied());
+                    }
+                    v
+                });
+                match (fast, general, singles) {
+                    (Ok(f), Ok(g), Ok(s)) => {
+                        let fb: Vec<u64> = f.iter().map(|v| v.b()).collect();
+                        let gb: Vec<u64> = g.iter().map(|v| v.b()).collect();
+                        let sb: Vec<u64> = s.iter().map(|v| v.b()).collect();
+                        inst.compare("Ix1 vs Ix2 (n,1)", &fb, &gb);
+                        inst.compare("Ix1 vs per-element interp", &fb, &sb);
+                    }
+                    (a, b, c) => {
+                        for (name, r) in [("interp_array(Ix1)", a.err()), ("interp_array(Ix2)", b.err()), ("interp", c.err())] {
+                            if let Some(p) = r {
+                                inst.failed(name, &p);
+                            }
+                        }
+                    }
+                }
+            }
+        }
+    }};
+}
+
+/// the six ordered pairs of different storage kinds, for every data dimension type
+#[macro_export]
+macro_rules! c19_crossdims {
+    ($which:ident, $ev:ident, $id:ident, $shard:ident, $shards:ident, $T:ty, [$(($D:ty, $rank:expr)),*]) => {
+        $(
+            $crate::c19_crossdims!(@pairs $which, $ev, $id, $shard, $shards, $T, $D, $rank);
+        )*
+    };
+    (@pairs $which:ident, $ev:ident, $id:ident, $shard:ident, $shards:ident, $T:ty, $D:ty, $rank:expr) => {
+        $id += 1;
+        if $id % $shards == $shard { $crate::$which!($ev, $id, $T, $D, $rank, owned, view); }
+        $id += 1;
+        if $id % $shards == $shard { $crate::$which!($ev, $id, $T, $D, $rank, owned, shared); }
+        $id += 1;
+        if $id % $shards == $shard { $crate::$which!($ev, $id, $T, $D, $rank, view, owned); }
+        $id += 1;
+        if $id % $shards == $shard { $crate::$which!($ev, $id, $T, $D, $rank, view, shared); }
+        $id += 1;
+        if $id % $shards == $shard { $crate::$which!($ev, $id, $T, $D, $rank, shared, owned); }
+        $id += 1;
+        if $id % $shards == $shard { $crate::$which!($ev, $id, $T, $D, $rank, shared, view); }
+    };
+}
+
 #[macro_export]
 macro_rules! c19_dims1 {
     ($ev:ident, $id:ident, $shard:ident, $shards:ident, $T:ty, $sto:tt, $strat:tt) => {
@@ -468,6 +645,17 @@ macro_rules! c19_all {
                 $crate::c19_dims2!(ev, id, shard, shards, $T, view);
                 $crate::c19_dims2!(ev, id, shard, shards, $T, shared);
                 $crate::c19_all!(@spline $float, ev, id, shard, shards, $T);
+                // crossed storage kinds (data x query in 1-D, xs x ys in 2-D)
+                $crate::c19_crossdims!(c19_cross1, ev, id, shard, shards, $T,
+                    [(Ix1, 1), (Ix2, 2), (Ix3, 3), (Ix4, 4), (Ix5, 5), (Ix6, 6), (IxDyn, 3)]);
+                $crate::c19_crossdims!(c19_cross2, ev, id, shard, shards, $T,
+                    [(Ix2, 2), (Ix3, 3), (Ix4, 4), (Ix5, 5), (Ix6, 6), (IxDyn, 4)]);
+            } else {
+                // the quick Miri stratum still sees one crossed pair per interpolator
+                id += 1;
+                if id % shards == shard { $crate::c19_cross1!(ev, id, $T, Ix2, 2, owned, view); }
+                id += 1;
+                if id % shards == shard { $crate::c19_cross2!(ev, id, $T, Ix3, 3, view, owned); }
             }
             let _ = id;
         }
